@@ -672,6 +672,7 @@ def gen_family(rng, force=(), forbid=(), n_masters=None, max_glyphs=14, p_sparse
             protected |= set(base_names[:2])
         cand = [n for n, _, r in roster if r in ("base", "alt", "mark_top", "mark_bottom", "composite")
                 and n not in protected and n != ".notdef"]
+        notdef_too = ".notdef" in [r_[0] for r_ in roster] and rng.random() < 0.15
         rng.shuffle(cand)
         # prefer (half of the time) non-export glyphs that other, exported glyphs are named
         # after or built from: 'A' for 'A.comp0' / 'A.alt' / 'A_V' - name derivation and
@@ -682,12 +683,20 @@ def gen_family(rng, force=(), forbid=(), n_masters=None, max_glyphs=14, p_sparse
             cand = stems + [n for n in cand if n not in stems]
         if cand:
             lib["public.skipExportGlyphs"] = cand[: rng.randint(1, min(2, len(cand)))]
+            if notdef_too:
+                # a non-export '.notdef' (the compiler then supplies its own placeholder)
+                lib["public.skipExportGlyphs"].append(".notdef")
     layers = {}
     if "color" in on:
         lib[UFO2FT + "colorPalettes"] = [[[1, 0, 0, 1], [0, 0, 1, 1]]]
         cname = base_names[0]
         lg = _simple_glyph(rng, spec, width=glyphs[cname]["width"], ncontours=1)
         lg2 = _simple_glyph(rng, spec, width=glyphs[cname]["width"], ncontours=1)
+        if "marks" in on and rng.random() < 0.6:
+            # colour-layer glyphs that carry the base glyph's attaching anchors
+            lg["anchors"] = [list(a) for a in glyphs[cname]["anchors"] if not a[0].startswith("_")][:2]
+            if rng.random() < 0.5:
+                lg2["anchors"] = [list(a) for a in lg["anchors"]]
         layers["color1"] = {cname: lg}
         layers["color2"] = {cname: lg2}
         mapping = [["color1", 1], ["color2", 0]]
@@ -802,6 +811,13 @@ def gen_family(rng, force=(), forbid=(), n_masters=None, max_glyphs=14, p_sparse
         use_map = rng.random() < 0.3
         if use_map:
             ax0["map"] = [[400, 20], [550, 80], [700, 170]]
+        # a default that lies strictly inside the axis, with sides of different length
+        # (third master below the default instead of between default and maximum)
+        low_master = n_masters >= 3 and naxes == 1 and rng.random() < 0.4
+        if low_master:
+            ax0["minimum"] = 250
+            if use_map:
+                ax0["map"].insert(0, [250, 5])
         axes.append(ax0)
         if naxes == 2:
             if rng.random() < 0.3:
@@ -832,6 +848,8 @@ def gen_family(rng, force=(), forbid=(), n_masters=None, max_glyphs=14, p_sparse
         if n_masters >= 3:
             if naxes == 2:
                 locs_user.append({"Weight": 400, "Width": a2m})
+            elif low_master:
+                locs_user.append({"Weight": 250, "Width": 100})
             else:
                 locs_user.append({"Weight": 550, "Width": 100})
         locs_user = [{a["name"]: l[a["name"]] for a in axes} for l in locs_user]
@@ -875,7 +893,7 @@ def gen_family(rng, force=(), forbid=(), n_masters=None, max_glyphs=14, p_sparse
                                   "subs": [[a, a[:-4]] for a in alts[:1]] if rng.random() < 0.5
                                   else [[alts[0][:-4], alts[-1]]]})
         for i in range(rng.randint(0, 2)):
-            wu = rng.choice([400, 475, 550, 625, 700])
+            wu = rng.choice([400, 475, 550, 625, 700] + ([250, 325, 310] if low_master else []))
             inst = {"Weight": wu}
             if naxes == 2:
                 inst["Width"] = rng.choice([a2m, (a2m + a2d) / 2, a2d])
@@ -904,6 +922,8 @@ def gen_family(rng, force=(), forbid=(), n_masters=None, max_glyphs=14, p_sparse
             cand = [n for n, _, r in roster if r in ("base", "alt") and n not in prot]
             if cand:
                 dslib["public.skipExportGlyphs"] = [rng.choice(cand)]
+                if ".notdef" in names and rng.random() < 0.15:
+                    dslib["public.skipExportGlyphs"].append(".notdef")
     if axes and n_masters in (1, 2) and "discrete_axis" not in forbid and (
             "discrete_axis" in force or rng.random() < 0.07):
         # a discrete (non-interpolating) axis: the document splits into one interpolable
